@@ -172,7 +172,27 @@ func printable(b []byte) string {
 }
 
 // Fail reports a violation of the property being checked.
+// driverSigOwners maps the anomalies the history driver itself notices to the
+// properties whose statements cover them. A check for another property counts
+// such an anomaly and ends the execution, it does not report it: a defect of
+// the buffer contract or of progress is not a violation of, say, match
+// maximality.
+var driverSigOwners = map[string]string{
+	"reset-error":    "C13 C15 C16",
+	"shrink-range":   "C15 C16",
+	"write-range":    "C15 C16",
+	"write-error":    "C15 C16",
+	"readfrom-range": "C01 C15 C16",
+	"readfrom-error": "C15 C16",
+	"parse-loop":     "C03 C14 C16",
+	"no-progress":    "C03 C14 C16",
+}
+
 func (h *Hist) Fail(sig, format string, a ...any) {
+	if owners, ok := driverSigOwners[sig]; ok && !strings.Contains(owners, h.Prop) {
+		h.St.Add("driver_anomalies_left_to_"+strings.ReplaceAll(owners, " ", "/"), 1)
+		return
+	}
 	h.failed = true
 	full := h.Prop + "|" + h.PC.Kind + "|" + sig
 	if h.Col.Seen(full) {
